@@ -7,8 +7,8 @@ package main
 
 import (
 	"go/ast"
-	"strings"
 	"go/types"
+	"strings"
 )
 
 type closure struct {
@@ -165,6 +165,10 @@ func (ex *Exec) inlineCall(c *ast.CallExpr, fi *FuncInfo, args []Term) []Term {
 	ex.block(fi.Body().List)
 	rs := ex.popFrame(f)
 	_ = savedBoxed
+	// the process may have ended inside the inlined code (os.Exit, or a panic in the CLI): that ends the caller as well
+	if ce := ex.P.Effects[fi.Name]; ce != nil && ce.Ghost["exit"] && !ex.st.dead() && !ex.inDefer {
+		ex.afterOsCall()
+	}
 	return rs
 }
 
@@ -192,16 +196,23 @@ func (ex *Exec) isSmallHelper(fi *FuncInfo) bool {
 	if fi.Body() == nil || fi.Lit != nil || strings.HasSuffix(fi.File, "/peg.go") {
 		return false
 	}
-	if r := ex.P.Reach[fi.Name]; r != nil && r[fi.Name] {
-		return false
-	}
 	if fi.Name == ex.F.Name {
 		return false
 	}
-	n, ok := 0, true
+	if r := ex.P.Reach[fi.Name]; r != nil && r[fi.Name] {
+		// recursive: acceptable only when the cycle runs through the function being verified (its recursive call is then an
+		// ordinary call against its own contract) and the helper does not call itself
+		back := ex.P.Reach[ex.F.Name]
+		if !(r[ex.F.Name] && back != nil && back[fi.Name]) || ex.callsDirectly(fi, fi.Name) {
+			return false
+		}
+	}
+	n, ok, loops := 0, true, 0
 	ast.Inspect(fi.Body(), func(nd ast.Node) bool {
 		switch nd.(type) {
-		case *ast.ForStmt, *ast.RangeStmt, *ast.DeferStmt, *ast.GoStmt, *ast.SelectStmt, *ast.FuncLit, *ast.LabeledStmt:
+		case *ast.ForStmt, *ast.RangeStmt:
+			loops++
+		case *ast.DeferStmt, *ast.GoStmt, *ast.SelectStmt, *ast.FuncLit, *ast.LabeledStmt:
 			ok = false
 		}
 		if _, isStmt := nd.(ast.Stmt); isStmt {
@@ -209,5 +220,42 @@ func (ex *Exec) isSmallHelper(fi *FuncInfo) bool {
 		}
 		return ok
 	})
-	return ok && n <= 14
+	if loops > 0 && ex.lostLoops() == 0 {
+		// a helper with a loop is executed in place only when the contract of the caller has loops the caller's code no longer
+		// shows (the loop was moved into the helper): its loops then bind to those contract loops
+		return false
+	}
+	return ok && n <= 150
+}
+
+func (ex *Exec) callsDirectly(fi *FuncInfo, name string) bool {
+	found := false
+	ast.Inspect(fi.Body(), func(nd ast.Node) bool {
+		if c, ok := nd.(*ast.CallExpr); ok {
+			if callee, _ := ex.P.staticCallee(fi.Pkg.TypesInfo, c); callee != nil && callee.Name == name {
+				found = true
+			}
+		}
+		return !found
+	})
+	return found
+}
+
+// lostLoops: loop contracts of the function being verified that are not used yet and whose header no loop of its body carries
+func (ex *Exec) lostLoops() int {
+	c := ex.F.Contract
+	if c == nil {
+		return 0
+	}
+	have := map[string]bool{}
+	for _, h := range ex.codeLoopHeaders() {
+		have[h] = true
+	}
+	n := 0
+	for _, lc := range c.Loops {
+		if !lc.seen && lc.Header != "" && !have[normSpace(lc.Header)] {
+			n++
+		}
+	}
+	return n
 }
